@@ -10,6 +10,10 @@ func init() {
 			readerNextFrameRules(c, "C05")
 			// the framing rules themselves: NextFrame delegates them to ws.CheckHeader
 			c03CheckHeader(c)
+			// the header the checks see is the one readHeader decodes
+			c01Decoder(c, "C05.decode-table", c.method("C05.decode-table", wsutil, "Reader", "readHeader"), true)
+			// a violation in a later fragment must surface from Discard as well
+			readerDiscardRules(c, "C05")
 		},
 	})
 }
